@@ -90,7 +90,7 @@ func (t *treePipeline) outputProgrammably(w io.Writer, root *Node, cfg *config) 
 	rootStream := make(chan *Node)
 	go func() {
 		defer close(rootStream)
-		rootStream <- root
+		sendRoot(ctx, rootStream, root)
 	}()
 	growStream, errcg := t.grower.grow(ctx, rootStream)
 	errcs := t.spreader.spread(ctx, w, growStream)
@@ -116,7 +116,7 @@ func (t *treePipeline) mkdirProgrammably(root *Node, cfg *config) error {
 	rootStream := make(chan *Node)
 	go func() {
 		defer close(rootStream)
-		rootStream <- root
+		sendRoot(ctx, rootStream, root)
 	}()
 	t.grower.enableValidation()
 	// when detect invalid node name, return error. process end.
@@ -150,7 +150,7 @@ func (t *treePipeline) verifyProgrammably(root *Node, cfg *config) error {
 	rootStream := make(chan *Node)
 	go func() {
 		defer close(rootStream)
-		rootStream <- root
+		sendRoot(ctx, rootStream, root)
 	}()
 	t.grower.enableValidation()
 	// when detect invalid node name, return error. process end.
@@ -178,7 +178,7 @@ func (t *treePipeline) walkProgrammably(root *Node, callback func(*WalkerNode) e
 	rootStream := make(chan *Node)
 	go func() {
 		defer close(rootStream)
-		rootStream <- root
+		sendRoot(ctx, rootStream, root)
 	}()
 	growStream, errcg := t.grower.grow(ctx, rootStream)
 	errcw := t.walker.walk(ctx, growStream, callback)
@@ -216,6 +216,14 @@ type verifierPipeline interface {
 // TODO: add doc
 type walkerPipeline interface {
 	walk(context.Context, <-chan *Node, func(*WalkerNode) error) <-chan error
+}
+
+// sendRoot feeds the single root of the From-Root functions into the pipeline.
+func sendRoot(ctx context.Context, rootStream chan<- *Node, root *Node) {
+	select {
+	case rootStream <- root:
+	case <-ctx.Done():
+	}
 }
 
 // パイプラインの全ステージで最初のエラーを返却
